@@ -30,6 +30,10 @@ Oracle readings recorded here (see also the final report):
     size), whichever draw call produced it.  For TwistedEventLoop waits of <= 5 ms are not counted:
     its documented idle emulation is a 1/256 s timer, so it necessarily sleeps that long first.
   * after an injected exception fired nothing more is demanded of the callback order.
+  * a terminal resize may arrive while input is pending: step ["mixed", batch, cols, rows] delivers ONE batch that
+    holds the marker "window resize" among keys / mouse events (first, in the middle, last on the scripted
+    screens; the real screen on the pty always reports it last, so the marker is moved to the end there).  The
+    redraw clause is the same: at the wait that follows, the last frame painted has the terminal's new size.
 """
 from __future__ import annotations
 
@@ -469,6 +473,9 @@ def _fake_screen_classes():
             if step[0] == "resize":
                 self.H.size = (step[1], step[2])
                 return ["window resize"]
+            if step[0] == "mixed":  # the resize is reported inside a batch of other events
+                self.H.size = (step[2], step[3])
+                return [tuple(k) if isinstance(k, list) else k for k in step[1]]
             raise ValueError(step)
 
     class FakeHook(FakeBase):
@@ -641,6 +648,10 @@ class PtyHarness(Harness):
                     H.trace.append(["clear"])
                 return super().clear()
 
+            def _sigwinch_handler(self, *a, **kw):
+                H.winch_seen += 1
+                return super()._sigwinch_handler(*a, **kw)
+
             def _start(self, *a, **kw):
                 H.trace.append(["start"])
                 return super()._start(*a, **kw)
@@ -654,6 +665,7 @@ class PtyHarness(Harness):
                     H.stopping = False
 
         self.stopping = False
+        self.winch_seen = 0
         self.screen = RecScreen(
             input=inp, output=out, bracketed_paste_mode=cfg["paste"], focus_reporting=cfg["focus"]
         )
@@ -700,6 +712,20 @@ class PtyHarness(Harness):
             self._set_winsize(step[1], step[2])
             self.size = (step[1], step[2])
             os.kill(os.getpid(), signal.SIGWINCH)
+        elif step[0] == "mixed":
+            # the user types, and the terminal is resized before the application gets to read: the bytes are
+            # readable on the tty AND the screen's SIGWINCH handler has run when the loop next looks, so the screen
+            # reports one batch [keys..., "window resize"].  (Waits: a pty hands written bytes to the slave side
+            # asynchronously; a Python signal handler runs between two bytecodes of the main thread.)
+            os.write(self.master, b"".join(_encode_key(k) for k in step[1] if k != "window resize"))
+            select.select([self.slave], [], [], 2.0)
+            self._set_winsize(step[2], step[3])
+            self.size = (step[2], step[3])
+            seen = self.winch_seen
+            os.kill(os.getpid(), signal.SIGWINCH)
+            t_end = time.time() + 2.0
+            while self.winch_seen == seen and time.time() < t_end and signal.getsignal(signal.SIGWINCH) not in (signal.SIG_DFL, signal.SIG_IGN):
+                time.sleep(0.0005)
         else:
             raise ValueError(step)
 
@@ -979,9 +1005,7 @@ def judge(case, res):
             M.apply_event(st, e)
         elif e[0] == "feed":
             feeds += 1
-            step = case["session"][e[1]]
-            if step[0] == "resize":
-                size = (step[1], step[2])
+            size = M.terminal_size_after(case["session"][e[1]], size)
         elif e[0] == "draw":
             last_draw = e
         elif e[0] == "wait":
@@ -1047,13 +1071,34 @@ def _cycle(order, sizes):
         "O": ["keys", ["P", ["mouse press", 1, 2, 1], ["mouse press", 1, 9, 3], "x", "T", "c"]],
         "Z": ["keys", ["z"]],
     }
+    # a resize that shares its batch with other events: after handled + unhandled keys (X), before a mouse event and
+    # a key (Y), between an unhandled key and the key that schedules an alarm (W)
+    mixed = {
+        "X": ["a", "x", "window resize"],
+        "Y": ["window resize", ["mouse press", 1, 0, 0], "a"],
+        "W": ["x", "window resize", "T"],
+    }
     out = []
     for ch in order:
         if ch == "R":
             out.append(["resize", *sizes[0]])
             sizes.append(sizes.pop(0))
+        elif ch in mixed:
+            out.append(["mixed", mixed[ch], *sizes[0]])
+            sizes.append(sizes.pop(0))
         else:
             out.append(parts[ch])
+    return out
+
+
+def for_pty(session):
+    """The same session as the real screen can deliver it: raw_display reports a resize after the keys it read in
+    the same go, so the marker of a mixed batch goes last."""
+    out = []
+    for st in session:
+        if st[0] == "mixed":
+            st = ["mixed", [k for k in st[1] if k != "window resize"] + ["window resize"], st[2], st[3]]
+        out.append(st)
     return out
 
 
@@ -1085,8 +1130,14 @@ def random_session(r, n, pipes=True):
             s.append(["keys", b])
         elif t < 0.75 and pipes:
             s.append(["pipe", r.choice(["p", "pipe-data", "\x00\xff"])])
-        elif t < 0.9:
+        elif t < 0.83:
             s.append(["resize", *r.choice(sizes)])
+        elif t < 0.9:
+            b = [r.choice(keys) for _ in range(r.randint(1, 3))]
+            if r.random() < 0.4:
+                b.append(["mouse press", r.choice([1, 2]), r.randint(0, 6), r.randint(0, 3)])
+            b.insert(r.randint(0, len(b)), "window resize")
+            s.append(["mixed", b, *r.choice(sizes)])
         else:
             s.append(["keys", ["T", "T"]])
     s.append(["keys", ["Q"]])
@@ -1112,7 +1163,7 @@ def build_cases(tier, seed):
     r = rng(seed)
     quick = tier == "quick"
     cases = []
-    orders = ["KMTPRL", "LRPTMK"] if quick else ["KMTPRL", "LRPTMK", "OTKPMR", "TTPPKO", "ZKRMOL", "MOPKTZ"]
+    orders = ["KMTPXRL", "LYRPTWMK"] if quick else ["KMTPXRL", "LYRPTWMK", "OTKPMR", "TTPPKO", "ZKRXMOL", "MOYPKTZW"]
     n_random = 3 if quick else 12
     core = ("select", "asyncio")
 
@@ -1162,16 +1213,16 @@ def build_cases(tier, seed):
     for li, loop in enumerate(loops):
         for ci, cfg in enumerate(PTY_CFGS):
             for pop in (False, True):
-                add("pty", loop, pop, make_session(orders[ci % len(orders)]), None, cfg)
+                add("pty", loop, pop, for_pty(make_session(orders[ci % len(orders)])), None, cfg)
         for order in orders[:1] if quick else orders[:3]:
-            sess = make_session(order)
+            sess = for_pty(make_session(order))
             for inj in grid(not quick or loop in core, li):
                 cfg = PTY_CFGS[n % len(PTY_CFGS)]
                 pop = (n // len(PTY_CFGS)) % 2 == 1
                 n += 1
                 add("pty", loop, pop, sess, inj, cfg)
         for _ in range(n_random):
-            add("pty", loop, bool(n % 2), random_session(r, 12), None, PTY_CFGS[n % len(PTY_CFGS)])
+            add("pty", loop, bool(n % 2), for_pty(random_session(r, 12)), None, PTY_CFGS[n % len(PTY_CFGS)])
             n += 1
     return cases, loops
 
@@ -1202,14 +1253,15 @@ def run(tier="quick", seed=0) -> dict:
     bound = (
         "%d forked sessions: loops %s%s; screens fake+hook / fake without hook (select only) / raw Screen on a pty "
         "(%d configurations of mouse, bracketed paste, focus reporting, initial signal handlers, initial termios); "
-        "pop_ups on/off; %d-stimulus cyclic sessions and random sessions; injection of ExitMainLoop/Exception/"
+        "pop_ups on/off; %d-stimulus cyclic sessions and random sessions, resizes alone and inside a batch of keys / "
+        "mouse events (marker first, in the middle, last; last only on the pty); injection of ExitMainLoop/Exception/"
         "KeyboardInterrupt at invocation index 0..6 of %s"
         % (
             len(cases),
             ",".join(loops),
             (" (not importable, skipped: %s)" % ",".join(skipped)) if skipped else "",
             len(PTY_CFGS),
-            len(make_session("KMTPRL")),
+            len(make_session("KMTPXRL")),
             "/".join(KINDS),
         )
     )
